@@ -9,7 +9,7 @@ def sh(cmd, cwd=None):
     p = subprocess.run(cmd, shell=True, cwd=cwd, env=ENV, stdout=subprocess.PIPE, stderr=subprocess.STDOUT, text=True)
     return p.returncode, p.stdout
 scratch = {}
-for f in sorted(glob.glob("/tmp/seed_eval.*.jsonl")) + sorted(glob.glob("/tmp/seed_reeval*.jsonl")):
+for f in (sorted(glob.glob("/tmp/seed_eval.*.jsonl")) if os.environ.get("SEED_ROUND", "1") == "1" else sorted(glob.glob("/tmp/seed2_eval.*.jsonl"))):
     for l in open(f):
         l = l.strip()
         if l.startswith("{"):
@@ -20,18 +20,26 @@ for f in sorted(glob.glob("/tmp/seed_eval.*.jsonl")) + sorted(glob.glob("/tmp/se
                 merged = dict(old["checks"]); merged.update(r.get("checks", {})); r["checks"] = merged
             scratch[key] = r
 assert sh("git -C /repo status --porcelain")[1].strip() == "", "/repo not clean"
+ROUND = os.environ.get("SEED_ROUND", "1")
+MUT = "/tmp/mut-" if ROUND == "1" else "/tmp/mut2-"
+TAG = "" if ROUND == "1" else "r2-"
+# round-2 changes whose trigger lies outside the domain of the property they were written for
+RETARGET = {("C11", "3"): "C14"} if ROUND == "2" else {}
+REJECT = {("C02", "1")} if ROUND == "2" else set()
 ids = sys.argv[1:] or "C02 C05 C06 C08 C09 C11 C13 C14 C15 C17 C18 C19 C20".split()
 for pid in ids:
     for k in "123":
-        d = f"/tmp/mut-{pid}"
+        d = f"{MUT}{pid}"
         if not os.path.exists(f"{d}/patch{k}.diff"): continue
-        out = f"/verif/seeded/{pid}-{k}"; os.makedirs(out, exist_ok=True)
+        if (pid, k) in REJECT: continue
+        target = RETARGET.get((pid, k), pid)
+        out = f"/verif/seeded/{pid}-{TAG}{k}"; os.makedirs(out, exist_ok=True)
         shutil.copy(f"{d}/patch{k}.diff", f"{out}/patch.diff"); shutil.copy(f"{d}/demo{k}.rs", f"{out}/demo.rs")
         if os.path.exists(f"{d}/notes{k}.md"): shutil.copy(f"{d}/notes{k}.md", f"{out}/notes.md")
         rc, o = sh(f"git -C /repo apply {out}/patch.diff"); assert rc == 0, o
         t0 = time.time()
         try:
-            rc, o = sh(f"/verif/check {pid} quick")
+            rc, o = sh(f"/verif/check {target} quick")
         finally:
             sh("git -C /repo checkout -- .")
         classes = re.findall(r"violation class=(\S+)", o)
@@ -40,17 +48,19 @@ for pid in ids:
         s = scratch.get((pid, k), {})
         notes = open(f"{out}/notes.md").read() if os.path.exists(f"{out}/notes.md") else ""
         meta = {
-            "id": f"{pid}-{k}", "breaks_property": pid, "source": "independent sub-agent given only the property text and its own scratch worktree",
+            "id": f"{pid}-{TAG}{k}", "breaks_property": target, "written_for_property": pid, "round": int(ROUND),
+            "source": "independent sub-agent given only the property text and its own scratch worktree" + ("" if target == pid else f"; written for {pid}, but its trigger lies outside {pid}'s input domain - it breaks {target}"),
             "needs_to_manifest": notes.strip().split("\n\n")[0][:1200],
             "confirmed_in_scratch_worktree": {x: s.get(x) for x in ["demo_passes_clean", "patch_applies", "suite_passes_default", "suite_passes_serde_rayon", "demo_fails_patched"]},
             "demo_features": s.get("demo_features", ""),
-            "what_was_run": [f"tools/seed_eval.py {d} {k} (scratch worktree + scratch copy of the harness)", f"git -C /repo apply seeded/{pid}-{k}/patch.diff && ./check {pid} quick; git -C /repo checkout -- ."],
-            "on_repo_target_check": {"cmd": f"./check {pid} quick", "exit": rc, "violation_classes": classes, "first_detail": (details[0][:500] if details else ""), "wall_s": round(time.time() - t0, 1)},
+            "what_was_run": [f"tools/seed_eval.py {d} {k} (scratch worktree + scratch copy of the harness)", f"git -C /repo apply seeded/{pid}-{TAG}{k}/patch.diff && ./check {target} quick; git -C /repo checkout -- ."],
+            "on_repo_target_check": {"cmd": f"./check {target} quick", "exit": rc, "violation_classes": classes, "first_detail": (details[0][:500] if details else ""), "wall_s": round(time.time() - t0, 1)},
             "caught_by_target_check": rc == 1,
-            "other_checks_that_catch_it_scratch_scale_0_3": sorted(p for p, c in s.get("checks", {}).items() if c.get("exit") == 1 and p != pid),
+            "other_checks_that_catch_it_scratch_scale_0_3": sorted(p for p, c in s.get("checks", {}).items() if c.get("exit") == 1 and p != target),
+            "caught_at_first_evaluation_before_strengthening": (target in [p for p, c in s.get("checks", {}).items() if c.get("exit") == 1]) if ROUND == "2" else None,
         }
         json.dump(meta, open(f"{out}/meta.json", "w"), indent=1)
-        print(pid, k, "exit", rc, classes[:3], flush=True)
+        print(pid, TAG + k, "->", target, "exit", rc, classes[:3], flush=True)
         for r in replays:
             # keep the minimised replay of the first class as an example of what the check reports
             if os.path.exists(r) and not os.path.exists(f"{out}/replay_example.json") and os.path.getsize(r) < 200_000:
